@@ -22,6 +22,8 @@ pub struct Swarm {
     pub deep_area_pct: u64,
     /// upper bound for dot counts (text size control)
     pub max_d: usize,
+    /// few labels, many conditional hearts: different passes pick different labels (forward jumps)
+    pub label_heavy: bool,
 }
 
 #[derive(Clone, Copy, Debug, PartialEq)]
@@ -48,6 +50,11 @@ pub fn swarm(rng: &mut Rng, flavor: Flavor) -> Swarm {
     if kind_w.iter().sum::<u32>() == kind_w[0] {
         kind_w[rng.usize(1, 5)] = 3;
     }
+    // most programs keep their stacks populated: pushes at least as likely as any consumer
+    if rng.chance(70) {
+        let m = *kind_w[1..].iter().max().unwrap();
+        kind_w[0] = kind_w[0].max(m + rng.range(0, 3) as u32);
+    }
     let mut stacks = vec![3usize];
     let allow0 = flavor != Flavor::InputFree && rng.chance(45);
     let allow1 = rng.chance(if flavor == Flavor::Optimizer { 60 } else { 35 });
@@ -62,31 +69,51 @@ pub fn swarm(rng: &mut Rng, flavor: Flavor) -> Swarm {
     if rng.chance(35) {
         stacks.push(0);
     }
+    // a stack that may be selected must be nameable
+    if allow0 && !stacks.contains(&0) {
+        stacks.push(0);
+    }
+    if allow1 && !stacks.contains(&1) {
+        stacks.push(1);
+    }
+    if allow2 && !stacks.contains(&2) {
+        stacks.push(2);
+    }
     let n_high = rng.usize(0, 4);
     for _ in 0..n_high {
         let v = if rng.chance(80) { rng.usize(4, 9) } else { rng.usize(10, 3000) };
         stacks.push(v);
     }
-    let mut label_pool = Vec::new();
+    let mut label_pool: Vec<(usize, usize)> = Vec::new();
     for _ in 0..rng.usize(1, 3) {
         let h = rng.usize(1, 3);
         let d = *rng.pick(&stacks);
         label_pool.push((h, d));
     }
-    let mut hearts = Vec::new();
+    let mut hearts: Vec<u8> = Vec::new();
     for _ in 0..rng.usize(1, 3) {
         hearts.push(rng.range(2, 12) as u8);
+    }
+    let label_heavy = rng.chance(20);
+    if label_heavy {
+        label_pool.truncate(rng.usize(1, 2));
+        hearts.truncate(2);
+        if hearts.len() < 2 {
+            hearts.push(rng.range(2, 12) as u8);
+        }
     }
     Swarm {
         kind_w,
         stacks,
         label_pool,
         hearts,
+        label_heavy,
         area_pct: match flavor {
+            _ if label_heavy => rng.range(50, 80),
             Flavor::Compile => rng.range(10, 70),
             _ => rng.range(10, 60),
         },
-        ret_pct: rng.range(0, 30),
+        ret_pct: if label_heavy { rng.range(0, 10) } else { rng.range(0, 30) },
         big_h_pct: if rng.chance(20) { rng.range(1, 10) } else { 0 },
         multi_pct: rng.range(10, 50),
         allow_select_io: [allow0, allow1, allow2],
@@ -97,6 +124,9 @@ pub fn swarm(rng: &mut Rng, flavor: Flavor) -> Swarm {
 
 fn gen_leaf(rng: &mut Rng, sw: &Swarm) -> RArea {
     let r = rng.below(100);
+    if sw.label_heavy && r >= 10 && r < 90 {
+        return RArea::Leaf(*rng.pick(&sw.hearts));
+    }
     if r < 25 {
         RArea::Nil
     } else if r < 25 + sw.ret_pct {
@@ -142,7 +172,7 @@ pub fn gen_cmd(rng: &mut Rng, sw: &Swarm, flavor: Flavor) -> Cmd {
     let has_area = rng.chance(sw.area_pct);
     let mut h;
     let mut d;
-    if has_area && rng.chance(60) {
+    if has_area && rng.chance(if sw.label_heavy { 90 } else { 60 }) {
         let (ph, pd) = *rng.pick(&sw.label_pool);
         h = ph;
         d = pd;
@@ -472,4 +502,28 @@ pub fn small_loop_core(rng: &mut Rng, v: &mut Vec<Cmd>, n: usize) {
         1,
         RArea::Node(0, Box::new(RArea::Nil), Box::new(RArea::Node(0, Box::new(RArea::Nil), Box::new(RArea::Leaf(heart))))),
     ));
+}
+
+/// Read some input in the middle of a program: select stdin, consume, come back.
+pub fn reader_template(rng: &mut Rng, v: &mut Vec<Cmd>) {
+    let pos = rng.usize(0, v.len());
+    let mut ins = vec![Cmd::new(5, 1, 0, RArea::Nil)];
+    for _ in 0..rng.usize(1, 4) {
+        let kind = *rng.pick(&[1u8, 1, 1, 2, 3, 5]);
+        let h = rng.usize(1, 3);
+        let d = *rng.pick(&[1usize, 1, 2, 3, 3, 4, 0]);
+        let d = if kind == 5 && d <= 2 { 3 } else { d };
+        let area = if rng.chance(25) {
+            RArea::Node(rng.below(2) as u8, Box::new(RArea::Nil), Box::new(RArea::Nil))
+        } else {
+            RArea::Nil
+        };
+        ins.push(Cmd::new(kind, h, d, area));
+    }
+    if rng.chance(70) {
+        ins.push(Cmd::new(5, 1, 3, RArea::Nil));
+    }
+    for (i, c) in ins.into_iter().enumerate() {
+        v.insert((pos + i).min(v.len()), c);
+    }
 }
